@@ -388,9 +388,24 @@ def reuse : P String := do
   let S ← P.nat; let n ← P.nat; let nW ← P.nat; let xs ← vecsP n S; let _warm ← vecsP nW S; P.bar
   let eU ← P.nat; let arrU ← vecsP n S; let eF ← P.nat; let arrF ← vecsP n S; P.eof
   let v : Verdict := { tag := "reuse" }
-  let kind := if wideVecs xs then "result_depends_on_previous_use_at_dynamic_range_above_2p16" else "result_depends_on_previous_use"
-  let v := v.failIf (eU != eF || arrU != arrF) s!"Pruner {kind} kept_used={eU} kept_fresh={eF}"
-  return v.render
+  if eU == eF && arrU == arrF then return v.render
+  -- the results differ: is the difference above the documented tolerance?  A vector kept by one object and not by the other,
+  -- whose exact margin against the kept set of the object that dropped it exceeds the envelope slack, is a needed vector lost by that object
+  let M := maxAbsL xs
+  let eps := (n : Rat) * linkSlack M + tiny M
+  let keptU := arrU.take eU; let keptF := arrF.take eF
+  let lost := fun (kept other : List Vec) => (other.filter (fun x => !kept.contains x)).find? (fun x =>
+    match exactWitness S kept x with
+    | some (_, b, _) => violationOK S eps kept b x
+    | none => false)
+  match lost keptU keptF, lost keptF keptU with
+  | none, none => return "skip within_tolerance"
+  | l1, l2 =>
+    let who := if l1.isSome then "used" else "fresh"
+    let x := (l1.orElse (fun _ => l2)).getD []
+    let kind := if wideVecs xs then "result_depends_on_previous_use_at_dynamic_range_above_2p16"
+      else if decide (M < 1000000) then "result_depends_on_previous_use" else "result_depends_on_previous_use_at_magnitude_above_1e6"
+    return s!"fail Pruner {kind} kept_used={eU} kept_fresh={eF} the_{who}_object_lost={showVec x}"
 
 /-- `wlp S k best v v2 | a1 a2 snaps` : `WitnessLP` used directly — reset, allocate, addOptimalRow for every row, two questions -/
 def wlp : P String := do
